@@ -17,9 +17,9 @@ import (
 
 // One client = one goroutine performing a list of operations on the shared Buffer.
 type syncOp struct {
-	Op  string `json:"op"` // R, W, Cl, DL
-	N   int    `json:"n"`  // W: length, R: cap
-	D   string `json:"d"`  // DL: none | passed | future
+	Op string `json:"op"` // R, W, Cl, DL
+	N  int    `json:"n"`  // W: length, R: cap
+	D  string `json:"d"`  // DL: none | passed | future
 }
 
 type syncScenario struct {
@@ -226,4 +226,105 @@ func TestVerifBufferSyncReplay(t *testing.T) {
 	ex.SetPrefix(rp.Sched)
 	ex.Begin()
 	execSync(t, tr, rp.Scenario, ex)
+}
+
+// TestVerifBufferConcurrent: free-running writers and readers on a small ring (real parallelism,
+// no scheduler): every call and return is recorded and the history must linearize on the FIFO.
+// Catches what the gate scheduler cannot see: work done outside the critical section.
+func TestVerifBufferConcurrent(t *testing.T) { //nolint:cyclop,gocognit
+	tr := vrt.Open()
+	defer tr.Close()
+	rng := rand.New(rand.NewSource(vrt.Seed())) //nolint:gosec
+	runs := vrt.EnvInt("VERIF_RUNS", 12)
+	perWriter := vrt.EnvInt("VERIF_N", 60)
+	for k := 0; k < runs; k++ {
+		nw, nr := 1+k%3, 1+(k/3)%2
+		big := k%2 == 0
+		b := packetio.NewBuffer()
+		var mu sync.Mutex
+		emit := func(m vrt.M) { mu.Lock(); tr.Emit(m); mu.Unlock() }
+		emit(vrt.M{"ev": "reset", "scenario": "free-running"})
+		limit := 3 * 1500
+		if big {
+			limit = 3 * 49000
+		}
+		emit(vrt.M{"ev": "call", "p": 1, "op": "LS", "cap": 0, "n": limit, "b4": []int{}, "d": ""})
+		b.SetLimitSize(limit)
+		emit(vrt.M{"ev": "ret", "p": 1, "op": "LS", "res": "", "n": 0, "b4": []int{}, "intact": true})
+		var nextID uint32
+		var pid int32 = 10
+		total := nw * perWriter
+		var got int32
+		var wg sync.WaitGroup
+		for w := 0; w < nw; w++ {
+			wg.Add(1)
+			seed := rng.Int63()
+			go func() {
+				defer wg.Done()
+				r := rand.New(rand.NewSource(seed)) //nolint:gosec
+				for i := 0; i < perWriter; {
+					n := 4 + r.Intn(1400)
+					if big {
+						n = 40000 + r.Intn(9000)
+					}
+					mu.Lock()
+					nextID++
+					id := nextID
+					pid++
+					p := int(pid)
+					payload := mkPayload(id, n)
+					tr.Emit(vrt.M{"ev": "call", "p": p, "op": "W", "cap": 0, "n": n, "b4": b4(payload), "d": ""})
+					mu.Unlock()
+					_, err := b.Write(payload)
+					res := errClass(err)
+					emit(vrt.M{"ev": "ret", "p": p, "op": "W", "res": res, "n": 0, "b4": []int{}, "intact": true})
+					for j := range payload {
+						payload[j] = 0xEE
+					}
+					if res == "ok" {
+						i++
+					} else {
+						time.Sleep(50 * time.Microsecond)
+					}
+				}
+			}()
+		}
+		for rd := 0; rd < nr; rd++ {
+			wg.Add(1)
+			go func() {
+				defer wg.Done()
+				buf := make([]byte, 65535)
+				for {
+					mu.Lock()
+					if int(got) >= total {
+						mu.Unlock()
+
+						return
+					}
+					got++ // this reader will take one packet
+					pid++
+					p := int(pid)
+					tr.Emit(vrt.M{"ev": "call", "p": p, "op": "R", "cap": len(buf), "n": 0, "b4": []int{}, "d": ""})
+					mu.Unlock()
+					n, err := b.Read(buf)
+					ok := n >= 0 && n <= len(buf)
+					if !ok {
+						n = 0
+					}
+					emit(vrt.M{"ev": "ret", "p": p, "op": "R", "res": errClass(err), "n": n, "b4": b4(buf[:n]), "intact": ok && intact(buf[:n])})
+				}
+			}()
+		}
+		done := make(chan struct{})
+		go func() { wg.Wait(); close(done) }()
+		select {
+		case <-done:
+			emit(vrt.M{"ev": "quiesce", "blocked": []int{}, "count": b.Count(), "sched": []int{}})
+		case <-time.After(20 * time.Second):
+			// somebody is stuck: close the buffer so everything returns, and let the spec judge the history
+			_ = b.Close()
+			<-done
+		}
+	}
+	t.Logf("events=%d", tr.N)
 }
